@@ -276,8 +276,72 @@ def contracts(env):
     return [cib, gpl, goc, cip, hpp, hdp]
 
 
+def native_handle_commit():
+    """bounded stand-in (labelled bounded): the real handle_commit with a fake repository/host.  A commit event on an
+    integration or source tip is handled as an event on the PARENT pull request: the pull request is looked up by the
+    FEATURE branch (w/<v>/<feature> is mapped back), the oldest matching pull request is evaluated; a commit on a
+    queue branch goes to the queue handler when queues are on."""
+    from types import SimpleNamespace
+    from unittest import mock
+    problems, cases = [], 0
+    for use_queue in (True, False):
+        for branches, want_lookup, want in (
+                (['w/5.1/feature/TEST-1-x'], ['feature/TEST-1-x'], 'pr'),
+                (['w/5.1/feature/TEST-1-x', 'w/10.0/feature/TEST-1-x'], ['feature/TEST-1-x', 'feature/TEST-1-x'], 'pr'),
+                (['feature/TEST-1-x'], ['feature/TEST-1-x'], 'pr'),
+                (['bugfix/TEST-2-y', 'w/5.1/feature/TEST-1-x'], ['bugfix/TEST-2-y', 'feature/TEST-1-x'], 'pr'),
+                (['q/5.1'], None, 'queue' if use_queue else 'pr'),
+                (['q/w/3/5.1/feature/TEST-1-x'], None, 'any'),
+                ([], None, 'nothing')):
+            cases += 1
+            looked, handled = [], []
+
+            def get_prs(src_branch=None):
+                looked.append(list(src_branch))
+                return [SimpleNamespace(id=7), SimpleNamespace(id=3)] if src_branch else []
+            job = SimpleNamespace(
+                commit='abc', settings=SimpleNamespace(use_queue=use_queue), bert_e=SimpleNamespace(),
+                git=SimpleNamespace(repo=SimpleNamespace(get_branches_from_commit=lambda c: list(branches))),
+                project_repo=SimpleNamespace(get_pull_requests=get_prs,
+                                             get_pull_request=lambda i: SimpleNamespace(id=i)))
+            with mock.patch.object(GWF, 'handle_pull_request', lambda j: handled.append(('pr', j.pull_request.id))), \
+                    mock.patch.object(GWF.queueing, 'handle_merge_queues', lambda j: handled.append(('queue',))), \
+                    mock.patch.object(GWF, 'PullRequestJob', lambda **kw: SimpleNamespace(**kw)), \
+                    mock.patch.object(GWF, 'QueuesJob', lambda **kw: SimpleNamespace(**kw)):
+                try:
+                    GWF.handle_commit(job)
+                    outcome = handled[-1][0] if handled else 'returned'
+                except X.NothingToDo:
+                    outcome = 'nothing'
+                except Exception as e:  # noqa
+                    outcome = 'crash:%s' % type(e).__name__
+            ok = True
+            if want == 'pr':
+                ok = outcome == 'pr' and handled[-1] == ('pr', 3)
+                if ok and want_lookup is not None:
+                    ok = looked and sorted(looked[-1]) == sorted(want_lookup)
+            elif want == 'queue':
+                ok = outcome == 'queue'
+            elif want == 'nothing':
+                ok = outcome == 'nothing'
+            elif want == 'any':
+                ok = not outcome.startswith('crash')
+            if not ok:
+                problems.append({'use_queue': use_queue, 'branches': branches, 'outcome': outcome, 'looked_up': looked,
+                                 'handled': handled, 'expected': want, 'expected_lookup': want_lookup})
+    return {'name': 'native_handle_commit', 'scope': 'commit events on w/, feature, q/ and q/w/ tips, queues on/off', 'cases': cases,
+            'distinct_nontrivial': cases, 'ok': not problems, 'problems': problems}
+
+
 def extra(rep, tier, seed, budget):
     """fact: the first number of the rendered integration pull request description is the parent id"""
+    hc = native_handle_commit()
+    rep.bounded.append(hc)
+    if not hc['ok']:
+        from pyvc.cli import write_replay as _wr
+        path = _wr(rep.pid, 'bounded:handle_commit', hc)
+        rep.violations.append({'key': 'bounded:handle_commit', 'what': 'commit event not handled on the parent pull request: %s'
+                               % hc['problems'][0], 'replay': path, 'input': hc['problems'][0], 'noinput': False})
     from bounded import integrate as _integ
     _integ.system_histories(rep, tier, seed, ['C19_one_to_one'])
     # handle_merge_queues: "merging it removes them" needs each merged pull request to be closed with its own
